@@ -1,16 +1,18 @@
 package main
 
 import (
+	"bytes"
 	"encoding/binary"
 	"encoding/hex"
-	"bytes"
 	"fmt"
+	"github.com/datastax/go-cassandra-native-protocol/datacodec"
+	"github.com/datastax/go-cassandra-native-protocol/message"
 	"io"
 	"strings"
 
+	"github.com/datastax/go-cassandra-native-protocol/compression/lz4"
 	"github.com/datastax/go-cassandra-native-protocol/datatype"
 	"github.com/datastax/go-cassandra-native-protocol/frame"
-	"github.com/datastax/go-cassandra-native-protocol/compression/lz4"
 	"github.com/datastax/go-cassandra-native-protocol/primitive"
 	"github.com/datastax/go-cassandra-native-protocol/segment"
 	"verif/internal/gen"
@@ -43,7 +45,10 @@ func primReaders() []primReader {
 		}, func(r io.Reader, _ primitive.ProtocolVersion) error { _, e := primitive.ReadStringMap(r); return e }},
 		{"multimap", func(g *gen.G, w *bytes.Buffer) {
 			primitive.WriteStringMultiMap(map[string][]string{g.Str(): g.StrList(), g.Str(): g.StrList()}, w)
-		}, func(r io.Reader, _ primitive.ProtocolVersion) error { _, e := primitive.ReadStringMultiMap(r); return e }},
+		}, func(r io.Reader, _ primitive.ProtocolVersion) error {
+			_, e := primitive.ReadStringMultiMap(r)
+			return e
+		}},
 		{"bytesmap", func(g *gen.G, w *bytes.Buffer) {
 			primitive.WriteBytesMap(map[string][]byte{g.Str(): g.Bytes(), g.Str(): g.Bytes()}, w)
 		}, func(r io.Reader, _ primitive.ProtocolVersion) error { _, e := primitive.ReadBytesMap(r); return e }},
@@ -56,13 +61,21 @@ func primReaders() []primReader {
 		{"value", func(g *gen.G, w *bytes.Buffer) { primitive.WriteValue(g.Value(), w, g.V) },
 			func(r io.Reader, v primitive.ProtocolVersion) error { _, e := primitive.ReadValue(r, v); return e }},
 		{"posvalues", func(g *gen.G, w *bytes.Buffer) { primitive.WritePositionalValues(g.Values(), w, g.V) },
-			func(r io.Reader, v primitive.ProtocolVersion) error { _, e := primitive.ReadPositionalValues(r, v); return e }},
+			func(r io.Reader, v primitive.ProtocolVersion) error {
+				_, e := primitive.ReadPositionalValues(r, v)
+				return e
+			}},
 		{"namedvalues", func(g *gen.G, w *bytes.Buffer) {
 			primitive.WriteNamedValues(map[string]*primitive.Value{g.Str(): g.Value(), g.Str(): g.Value()}, w, g.V)
-		}, func(r io.Reader, v primitive.ProtocolVersion) error { _, e := primitive.ReadNamedValues(r, v); return e }},
+		}, func(r io.Reader, v primitive.ProtocolVersion) error {
+			_, e := primitive.ReadNamedValues(r, v)
+			return e
+		}},
 		{"reasonmap", func(g *gen.G, w *bytes.Buffer) { primitive.WriteReasonMap(g.ReasonMap(), w) },
 			func(r io.Reader, _ primitive.ProtocolVersion) error { _, e := primitive.ReadReasonMap(r); return e }},
-		{"streamid", func(g *gen.G, w *bytes.Buffer) { primitive.WriteStreamId(int16(g.R.U64()), w, primitive.ProtocolVersion4) },
+		{"streamid", func(g *gen.G, w *bytes.Buffer) {
+			primitive.WriteStreamId(int16(g.R.U64()), w, primitive.ProtocolVersion4)
+		},
 			func(r io.Reader, v primitive.ProtocolVersion) error { _, e := primitive.ReadStreamId(r, v); return e }},
 		{"datatype", func(g *gen.G, w *bytes.Buffer) { datatype.WriteDataType(g.DataType(3), w, g.V) },
 			func(r io.Reader, v primitive.ProtocolVersion) error { _, e := datatype.ReadDataType(r, v); return e }},
@@ -82,7 +95,11 @@ func runC04(res *lp.Result) {
 		per, nmut = 25, 40
 	}
 	var lines, expect, descr []string
-	ask := func(l, want, d string) { lines = append(lines, l); expect = append(expect, want); descr = append(descr, d) }
+	ask := func(l, want, d string) {
+		lines = append(lines, l)
+		expect = append(expect, want)
+		descr = append(descr, d)
+	}
 	record := func(entry, input string, o outcome, okText string) string {
 		res.Case(entry+":"+input, true)
 		res.Count("outcome/" + entry + "/" + o.kind)
@@ -121,6 +138,65 @@ func runC04(res *lp.Result) {
 				return show.Frame(d), r.Len(), nil
 			})
 			record("DecodeFrame/"+cs.name, c.hexIn, o, "ok")
+		}
+	}
+	// the whole table of [option] ids at the position of a column type, in every version: every id 0x0000..0x0040, the ids around
+	// the custom-type marker and a few high ones. Whatever the decoder returns must also be USABLE: rendering it, measuring it,
+	// encoding it again and asking for a value codec must not panic either (a decoder that hands out a half-built value only
+	// moves the crash to its caller).
+	for _, v := range gen.Versions {
+		ids := []int{0x7fff, 0x8000, 0xfffe, 0xffff, 0x0100}
+		for id := 0; id <= 0x40; id++ {
+			ids = append(ids, id)
+		}
+		for _, tid := range ids {
+			for _, nested := range []int{0, 0x20, 0x22, 0x31} { // bare; element of a list; of a set; field of a tuple
+				var ty []byte
+				switch nested {
+				case 0:
+					ty = be16(tid)
+				case 0x31:
+					ty = append(append(be16(0x31), be16(1)...), be16(tid)...)
+				default:
+					ty = append(be16(nested), be16(tid)...)
+				}
+				body := append(be32(2), be32(1)...) // RESULT Rows; flags: global table spec
+				body = append(body, be32(1)...)     // one column
+				body = append(body, specString("ks")...)
+				body = append(body, specString("t")...)
+				body = append(body, specString("c")...)
+				body = append(body, ty...)
+				body = append(body, be32(0)...) // no rows
+				vb := byte(v) | 0x80
+				m := specFrame(vb, v, 0x08, body)
+				in := hx(m)
+				currentInput.Store("frame dec none " + in)
+				o := guarded(func() (string, int, error) {
+					r := bytes.NewReader(m)
+					d, err := compSettings()[0].codec.DecodeFrame(r)
+					if err != nil {
+						return "", 0, err
+					}
+					text := show.Frame(d)
+					if rr, ok := d.Body.Message.(*message.RowsResult); ok && rr.Metadata != nil {
+						for _, c := range rr.Metadata.Columns {
+							if c != nil && c.Type != nil {
+								_ = c.Type.AsCql()
+								_ = c.Type.Code()
+								datatype.LengthOfDataType(c.Type, v)
+								datacodec.NewCodec(c.Type)
+								c.Type.DeepCopyDataType()
+							}
+						}
+					}
+					var sink bytes.Buffer
+					compSettings()[0].codec.EncodeFrame(d, &sink)
+					return text, r.Len(), nil
+				})
+				want := record("DecodeFrame+use/none", in, o, fmt.Sprintf("ok %d %s", len(m)-o.rest, o.text))
+				res.Count("option-id-table")
+				ask("frame dec none "+in, want, fmt.Sprintf("RESULT Rows with column type id 0x%04x (nesting 0x%02x), version %d", tid, nested, v))
+			}
 		}
 	}
 	// frames through all codecs
